@@ -1,4 +1,5 @@
 """C06 - written text obeys the BibtexFormat contract and carries every block's content."""
+import copy
 import itertools
 import json
 import re
@@ -16,11 +17,22 @@ RULE = ("libraries built from the model classes (any block mix incl. plain / mid
         "ordered pair of settings (write, set, write, set back, write - the same field keys under each setting; int -> int columns) "
         "bounded-exhaustive, and random set/write rounds over libraries with recurring field keys incl. a fresh format object "
         "replacing the dropped one. "
+        "user classes (harness/props/userclasses.py): every block kind as an instance of a user SUBCLASS (SubEntry, CopyFieldsEntry - a "
+        "defensive fields view -, SubString, SubPreamble, SubExplicitComment, SubImplicitComment, a ParsingFailedBlock subclass, SubField, "
+        "also inside middleware-error / duplicate-field blocks), field keys / values / entry type / key / raw / comment text as str "
+        "SUBCLASS instances, a Library subclass, BibtexFormat subclasses (trivial; extra constructor state; the five properties "
+        "overridden over one dict) and format strings incl. 'auto' as str subclass instances - bounded-exhaustive block kind x flag set "
+        "x column x entrypoint and format class x str kind x library class x column x entrypoint on a fixed library, random libraries, "
+        "parsed libraries rebuilt block by block, sessions and re-configuration sessions; compared with the model on the plain twin "
+        "(same content in the library's own classes: for the writer a SubEntry IS an Entry) and judged by the oracle on the real objects. "
         "distinct = distinct (library, format); "
         "non-trivial = the library has an entry with a field or a failed block")
 TRUSTED = ["oracle instances: str.splitlines (ten line boundaries) and str.format on templates whose only replacement field is {n} "
            "are modelled and compared with CPython on every run (ops 62, 63); templates outside are skipped by the model"]
-ASSUMPTIONS = ["field values, keys, types, separators are str (a few libraries with non-str values check the TypeError class only)",
+ASSUMPTIONS = ["field values, keys, types, separators are str or instances of a str subclass that overrides nothing (a few libraries with "
+               "non-str values check the TypeError class only)",
+               "user subclasses of blocks / Library / BibtexFormat keep the public attribute contract of their base class",
+               "entries with the same key in ONE library are of related classes (Library.add asserts it: C08/C09's business)",
                "parsing_failed_comment templates use only {n} and the {{ }} escapes (DESIGN C06 Limits)"]
 CASE_TIMEOUT_S = 30
 
@@ -263,6 +275,130 @@ def rreconf(rng):
     return {"mode": "session", "blocks": blocks, "fmt": f, "steps": steps}
 
 
+# ---- user classes: ["u", flags, block] = the block rebuilt from user-side classes (convert below).  flags: S trivial subclass of the
+# block's class, C CopyFieldsEntry, F SubField fields, k / v / h = field (or @string) keys / values and block texts / entry type, key
+# and raw as str-subclass instances.  One library mixes plain entries with ONE entry subclass (its flavour): Library.add asserts that
+# two entries with the same key are of related classes, which SubEntry and CopyFieldsEntry are not.
+UC_FLAGS = {"entry": "kvhF", "string": "kvh", "preamble": "vh", "expl": "vh", "impl": "vh", "failed": "h"}
+UC_FMT_CLASSES = ["plain", "sub", "attrs", "props"]
+UC_BASE = SESSION_BASE + [["impl", "% free text\nsecond line"],
+                          ["mwerr", "raw of mw\nline 2", ["entry", "misc", "m", [["k" * 20, "{hidden}"]], None]],
+                          ["dupfield", ["entry", "misc", "d", [["a", "{1}"], ["a", "{2}"], ["k" * 25, "{hidden}"]],
+                                        "@misc{d, a={1},\r a={2}}"]]]
+
+
+def rflags(rng, kind, flavor):
+    cls = "C" if (flavor == "copy" and kind == "entry") else "S"
+    avail = UC_FLAGS[kind]
+    r = rng.random()
+    if r < 0.35:
+        return cls
+    if r < 0.55:
+        return rng.choice(avail)                # the library's own class holding one kind of str-subclass text
+    if r < 0.70:
+        return cls + avail
+    return (("" if rng.random() < 0.3 else cls) + "".join(c for c in avail if rng.random() < 0.5)) or cls
+
+
+def uwrap(rng, d, flavor, p=0.6):
+    t = d[0]
+    if t == "mwerr":
+        return [t, d[1], uwrap(rng, d[2], flavor, p)]
+    if t == "dupfield":
+        return [t, uwrap(rng, d[1], flavor, p)]
+    if t == "u" or rng.random() >= p:
+        return d
+    return ["u", rflags(rng, t, flavor), d]
+
+
+def ruc(rng):
+    return {"lib": rng.random() < 0.5, "fmt": rng.choice(UC_FMT_CLASSES + ["sub", "props"]), "fstr": rng.random() < 0.35}
+
+
+def uc_session(rng, inp):
+    """The blocks of a session (initial ones and those added / put in place later) drawn from the user classes."""
+    flavor = rng.choice(["sub", "copy"])
+    inp["blocks"] = [uwrap(rng, d, flavor) for d in inp["blocks"]]
+    for st in inp["steps"]:
+        if st[0] == "add":
+            st[1] = [uwrap(rng, d, flavor) for d in st[1]]
+        elif st[0] == "replace":
+            st[2] = uwrap(rng, st[2], flavor)
+    inp["uc"] = ruc(rng)
+    return inp
+
+
+def uc_grid_configs():
+    """Every block of UC_BASE alone x (its subclass, each kind of str-subclass text alone, everything at once), and all blocks at once."""
+    out = []
+    for i, d in enumerate(UC_BASE):
+        inner = d[2] if d[0] == "mwerr" else d[1] if d[0] == "dupfield" else d
+        kind = inner[0]
+        sets = ["S"] + (["C"] if kind == "entry" else []) + list(UC_FLAGS[kind]) + ["S" + UC_FLAGS[kind]] + (
+            ["C" + UC_FLAGS[kind]] if kind == "entry" else [])
+        for fl in sets:
+            w = ["u", fl, inner]
+            nb = ["mwerr", d[1], w] if d[0] == "mwerr" else ["dupfield", w] if d[0] == "dupfield" else w
+            out.append(UC_BASE[:i] + [nb] + UC_BASE[i + 1:])
+    for cls in ("S", "C", ""):
+        for strs in (False, True):
+            if not cls and not strs:
+                continue
+            bs = []
+            for d in UC_BASE:
+                inner = d[2] if d[0] == "mwerr" else d[1] if d[0] == "dupfield" else d
+                c = cls if (cls != "C" or inner[0] == "entry") else "S"
+                w = ["u", c + (UC_FLAGS[inner[0]] if strs else ""), inner]
+                bs.append(["mwerr", d[1], w] if d[0] == "mwerr" else ["dupfield", w] if d[0] == "dupfield" else w)
+            out.append(bs)
+    return out
+
+
+def generate_uc(rng, quick):
+    cases = []
+    # 8a. bounded-exhaustive on a fixed library: block kind x flag set x column x entrypoint (library / format class drawn)
+    for blocks in uc_grid_configs():
+        for col in ("auto", 9):
+            for via in ("write", "write_string"):
+                f = {"indent": "  ", "col": col, "sep": "\n\n", "trailing": rng.random() < 0.5, "failed": rng.choice(COMMENTS[:4])}
+                cases.append({"stream": "uc_grid", "input": {"mode": "build", "via": via, "blocks": blocks, "fmt": f, "uc": ruc(rng)}})
+    # 8b. bounded-exhaustive: format class x str kind of its settings x library class x column x entrypoint, blocks plain / user classes
+    allsub = uc_grid_configs()[-4]
+    for blocks in (UC_BASE, allsub):
+        for fcls in UC_FMT_CLASSES:
+            for fstr in (False, True):
+                for lib in (False, True):
+                    for col in ("auto", 9, 0):
+                        for via in ("write", "write_string"):
+                            f = {"indent": rng.choice(INDENTS), "col": col, "sep": rng.choice(SEPS), "trailing": rng.random() < 0.5,
+                                 "failed": rng.choice(COMMENTS)}
+                            cases.append({"stream": "uc_fmt_grid", "input": {
+                                "mode": "build", "via": via, "blocks": blocks, "fmt": f, "uc": {"lib": lib, "fmt": fcls, "fstr": fstr}}})
+    # 8c. random libraries of user-class blocks x random formats of user classes (a few with non-str values: exception class)
+    for _ in range(500 if quick else 20000):
+        keys, skeys = [], []
+        flavor = rng.choice(["sub", "copy"])
+        bad = rng.random() < 0.06
+        blocks = [uwrap(rng, rblock(rng, keys, skeys, allow_bad=bad), flavor, 0.7) for _ in range(rng.choice([1, 1, 2, 3, 4, 6, 9]))]
+        cases.append({"stream": "uc_build", "input": {"mode": "build", "via": rng.choice(["write", "write_string"]),
+                                                      "blocks": blocks, "fmt": rfmt(rng), "uc": ruc(rng)}})
+    # 8d. parsed libraries rebuilt block by block from user classes (conv: flag sets applied round-robin to the parsed blocks)
+    for _ in range(150 if quick else 4000):
+        cls = rng.choice("SC")
+        conv = [rng.choice(["", cls, cls, cls + "kvhF", "".join(c for c in cls + "kvhF" if rng.random() < 0.5)])
+                for _ in range(rng.randint(1, 4))]
+        if not any(conv):
+            conv[0] = cls
+        cases.append({"stream": "uc_parse", "input": {"mode": "parse", "via": rng.choice(["write", "write_string"]),
+                                                      "text": rtext(rng), "fmt": rfmt(rng), "uc": dict(ruc(rng), conv=conv)}})
+    # 8e. sessions and re-configuration sessions (oracle only) over user-class blocks / library / format
+    for _ in range(200 if quick else 6000):
+        cases.append({"stream": "uc_session", "input": uc_session(rng, rsession(rng))})
+    for _ in range(80 if quick else 2000):
+        cases.append({"stream": "uc_session_reconf", "input": uc_session(rng, rreconf(rng))})
+    return cases
+
+
 def generate(rng, tier):
     quick = tier == "quick"
     cases = []
@@ -351,6 +487,8 @@ def generate(rng, tier):
     #    7d. random re-configuration sessions
     for _ in range(250 if quick else 20000):
         cases.append({"stream": "session_reconf", "input": rreconf(rng)})
+    # 8. user classes (drawn after every other stream: the streams above are the same for a given seed as before)
+    cases.extend(generate_uc(rng, quick))
     return cases
 
 
@@ -361,16 +499,36 @@ def shrink(case):
     def mk(**kw):
         c = {"stream": case.get("stream", "shrink"), "input": dict(inp, **kw)}
         out.append(c)
+    if inp.get("uc"):
+        u = inp["uc"]
+        if u.get("lib"):
+            mk(uc=dict(u, lib=False))
+        if u.get("fmt") != "plain":
+            mk(uc=dict(u, fmt="plain"))
+        if u.get("fstr"):
+            mk(uc=dict(u, fstr=False))
+        if u.get("conv") and any(u["conv"]):
+            mk(uc=dict(u, conv=[""]))
+            mk(uc=dict(u, conv=[x[:1] for x in u["conv"]]))
+        bs = inp.get("blocks") or []
+        for i, b in enumerate(bs):                  # one block back in the library's own class / with fewer str-subclass texts
+            w = b[2] if b[0] == "mwerr" else b[1] if b[0] == "dupfield" else b
+            if w[0] != "u":
+                continue
+            for nw in [w[2]] + ([["u", w[1][:1], w[2]]] if len(w[1]) > 1 else []):
+                nb = ["mwerr", b[1], nw] if b[0] == "mwerr" else ["dupfield", nw] if b[0] == "dupfield" else nw
+                mk(blocks=bs[:i] + [nb] + bs[i + 1:])
     if inp.get("mode") == "build":
         bs = inp["blocks"]
         for i in range(len(bs)):
             mk(blocks=bs[:i] + bs[i + 1:])
         for i, b in enumerate(bs):
-            if b[0] == "entry" and b[3]:
-                for j in range(len(b[3])):
-                    nb = list(b)
-                    nb[3] = b[3][:j] + b[3][j + 1:]
-                    mk(blocks=bs[:i] + [nb] + bs[i + 1:])
+            e = b[2] if b[0] == "u" else b
+            if e[0] == "entry" and e[3]:
+                for j in range(len(e[3])):
+                    nb = list(e)
+                    nb[3] = e[3][:j] + e[3][j + 1:]
+                    mk(blocks=bs[:i] + [nb if b[0] != "u" else ["u", b[1], nb]] + bs[i + 1:])
     elif inp.get("mode") == "session":
         st, bs = inp["steps"], inp["blocks"]
         for i in range(len(st)):
@@ -406,9 +564,125 @@ def unval(v):
     return v
 
 
+_UCX = None
+
+
+def ucx():
+    """userclasses.get() plus the classes only this property needs, derived from the classes of the tree under test."""
+    global _UCX
+    if _UCX is not None:
+        return _UCX
+    from bibtexparser.model import ParsingFailedBlock
+    from bibtexparser.writer import BibtexFormat
+    from . import userclasses
+    uc = userclasses.get()
+
+    class SubFailed(ParsingFailedBlock):
+        pass
+
+    class SubFormat(BibtexFormat):
+        pass
+
+    class AttrsFormat(BibtexFormat):
+        """State of its own next to the settings (constructor arguments with defaults)."""
+
+        def __init__(self, owner="a user", *, notes=None):
+            super().__init__()
+            self.owner = owner
+            self.notes = ["n", 1] if notes is None else notes
+
+    class PropsFormat(BibtexFormat):
+        """The five public settings overridden as properties over ONE dict; validation of value_column as in the base class.
+        (The counterpart of CopyFieldsEntry: the public attributes are the contract, not the private slots of the base class.)"""
+
+        def __init__(self):
+            super().__init__()
+            base = BibtexFormat
+            self._cfg = {n: getattr(base, n).fget(self) for n in ("indent", "value_column", "block_separator", "trailing_comma",
+                                                                  "parsing_failed_comment")}
+
+        def _get(name):                                          # noqa: N805
+            return lambda self: self._cfg[name]
+
+        def _set(name):                                          # noqa: N805
+            def setter(self, value):
+                if name == "value_column":
+                    if isinstance(value, int):
+                        if value < 0:
+                            raise ValueError("value_column must be >= 0")
+                    elif value != "auto":
+                        raise ValueError("value_column must be an integer or 'auto'")
+                self._cfg[name] = value
+            return setter
+        indent = property(_get("indent"), _set("indent"))
+        value_column = property(_get("value_column"), _set("value_column"))
+        block_separator = property(_get("block_separator"), _set("block_separator"))
+        trailing_comma = property(_get("trailing_comma"), _set("trailing_comma"))
+        parsing_failed_comment = property(_get("parsing_failed_comment"), _set("parsing_failed_comment"))
+        del _get, _set
+
+    _UCX = (uc, {"failed": SubFailed, "plain": BibtexFormat, "sub": SubFormat, "attrs": AttrsFormat, "props": PropsFormat})
+    return _UCX
+
+
+def convert(b, flags):
+    """The block rebuilt from user classes: same content, same raw / start line / metadata.  flags as in the generators; flags that do
+    not apply to the block's kind are ignored, blocks that are not of exactly one of the library's six plain classes are returned as is."""
+    from bibtexparser import model as M
+    uc, own = ucx()
+    k, v, h, fsub = "k" in flags, "v" in flags, "h" in flags, "F" in flags
+
+    def s(x, on):
+        return uc.StrSub(x) if (on and type(x) is str) else x
+
+    def carry(nb):
+        nb._parser_metadata = dict(b.parser_metadata)
+        return nb
+    t = type(b)
+    if t is M.Entry:
+        if k or v or h or fsub:
+            fcls = uc.SubField if fsub else M.Field
+            fields = [fcls(s(f.key, k), s(f.value, v), f.start_line) for f in b.fields] if (k or v or fsub) else list(b.fields)
+            b = carry(M.Entry(s(b.entry_type, h), s(b.key, h), fields, b.start_line, s(b.raw, h)))
+        return uc.as_copyfields(b) if "C" in flags else uc.as_sub(b) if "S" in flags else b
+    if t is M.String:
+        if k or v or h:
+            b = carry(M.String(s(b.key, k), s(b.value, v), b.start_line, s(b.raw, h)))
+    elif t is M.Preamble:
+        if v or h:
+            b = carry(M.Preamble(s(b.value, v), b.start_line, s(b.raw, h)))
+    elif t in (M.ExplicitComment, M.ImplicitComment):
+        if v or h:
+            b = carry(t(s(b.comment, v), b.start_line, s(b.raw, h)))
+    elif t is M.ParsingFailedBlock:
+        if h or "S" in flags or "C" in flags:
+            b = carry((own["failed"] if ("S" in flags or "C" in flags) else t)(b.error, b.start_line, s(b.raw, h), b.ignore_error_block))
+        return b
+    else:
+        return b
+    return uc.as_sub(b) if ("S" in flags or "C" in flags) else b
+
+
+def strip_u(d):
+    """The plain twin of a block description: the same content in the library's own classes."""
+    if d[0] == "u":
+        return strip_u(d[2])
+    if d[0] == "mwerr":
+        return [d[0], d[1], strip_u(d[2])]
+    if d[0] == "dupfield":
+        return [d[0], strip_u(d[1])]
+    return d
+
+
+def has_u(d):
+    return d[0] == "u" or (d[0] == "mwerr" and has_u(d[2])) or (d[0] == "dupfield" and has_u(d[1]))
+
+
 def build_block(d):
     from bibtexparser import model as M
     t = d[0]
+    if t == "u":
+        return convert(build_block(d[2]), d[1])
     if t == "entry":
         fs = [M.Field(k, unval(v), i + 1) for i, (k, v) in enumerate(d[3])]
         return M.Entry(d[1], d[2], fs, start_line=0, raw=d[4])
@@ -433,17 +707,25 @@ def build_block(d):
     raise ValueError(t)
 
 
-def make_fmt(f):
+def make_fmt(f, ucd=None):
+    """ucd (the "uc" of the case): the class of the format object and whether its str settings are str-subclass instances."""
     from bibtexparser.writer import BibtexFormat
     if f is None:
         return None
-    o = BibtexFormat()
-    o.indent = f["indent"]
-    o.value_column = f["col"]
-    o.block_separator = f["sep"]
+    s = str
+    if ucd:
+        uc, own = ucx()
+        o = own[ucd.get("fmt") or "plain"]()
+        if ucd.get("fstr"):
+            s = uc.StrSub
+    else:
+        o = BibtexFormat()
+    o.indent = s(f["indent"])
+    o.value_column = s(f["col"]) if isinstance(f["col"], str) else f["col"]
+    o.block_separator = s(f["sep"])
     o.trailing_comma = f["trailing"]
     if f["failed"] is not None:
-        o.parsing_failed_comment = f["failed"]
+        o.parsing_failed_comment = s(f["failed"])
     return o
 
 
@@ -531,8 +813,58 @@ def expected_text(blocks, f):
     return "text", f["sep"].join(texts), notes
 
 
+FMT_PUBLIC = ("indent", "value_column", "block_separator", "trailing_comma", "parsing_failed_comment")
+
+
 def fmt_state(o):
-    return None if o is None else {k: (type(v).__name__, v) for k, v in vars(o).items()}
+    """Everything the object holds (deep snapshot, exact classes of the values) and what its five public attributes answer."""
+    if o is None:
+        return None
+    st = {k: (type(v).__name__, copy.deepcopy(v)) for k, v in vars(o).items()}
+    for k in FMT_PUBLIC:
+        v = getattr(o, k)
+        st["public " + k] = (type(v).__name__, v)
+    st["class"] = type(o).__name__
+    return st
+
+
+def uc_tags(lib, blocks, fo):
+    """Which user classes took part in a write, read off the real objects."""
+    from bibtexparser import model as M
+    tags = set()
+
+    def user(x):
+        return not type(x).__module__.startswith("bibtexparser")
+
+    def ss(x):
+        return isinstance(x, str) and type(x) is not str
+    if user(lib):
+        tags.add("uc_" + type(lib).__name__)
+    for b in blocks:
+        if user(b):
+            tags.add("uc_" + type(b).__name__)
+        inner = getattr(b, "ignore_error_block", None)
+        if inner is not None and (user(inner) or (isinstance(inner, M.Entry) and any(ss(f.key) or ss(f.value) for f in inner.fields))):
+            tags.add("uc_inside_failed_block")
+        if ss(b.raw) or ss(getattr(b, "entry_type", None)) or (isinstance(b, M.Entry) and ss(b.key)):
+            tags.add("uc_strsub_type_key_raw")
+        if isinstance(b, M.Entry):
+            if any(user(f) for f in b.fields):
+                tags.add("uc_SubField")
+            if any(ss(f.key) for f in b.fields):
+                tags.add("uc_strsub_field_key")
+            if any(ss(f.value) for f in b.fields):
+                tags.add("uc_strsub_field_value")
+        elif any(ss(getattr(b, a, None)) for a in ("value", "comment")) or (isinstance(b, M.String) and ss(b.key)):
+            tags.add("uc_strsub_block_text")
+    if fo is not None:
+        if user(fo):
+            tags.add("uc_" + type(fo).__name__)
+        if any(ss(getattr(fo, a)) for a in FMT_PUBLIC):
+            tags.add("uc_strsub_format_setting")
+        if ss(fo.value_column):
+            tags.add("uc_strsub_auto")
+    return tags
 
 # ------------------------------------------------------------------ sessions: one Library / one format object, several steps
 def judge(r, blocks, f, before, after):
@@ -638,10 +970,10 @@ def edit_block(blocks, st):
     return "edit_" + kind
 
 
-def set_fmt(fo, f, attr, val):
+def set_fmt(fo, f, attr, val, ucd=None):
     name = {"indent": "indent", "col": "value_column", "sep": "block_separator", "trailing": "trailing_comma",
             "failed": "parsing_failed_comment"}[attr]
-    setattr(fo, name, val)
+    setattr(fo, name, ucx()[0].StrSub(val) if (ucd and ucd.get("fstr") and isinstance(val, str)) else val)
     f[attr] = val
 
 
@@ -650,9 +982,12 @@ def run_session(inp):
     import implutil
     from bibtexparser import writer
     from bibtexparser.library import Library
+    ucd = inp.get("uc")
+    if ucd and ucd.get("lib"):
+        Library = ucx()[0].SubLibrary                        # noqa: N806 - also the class of the second libraries (write_sub)
     lib = Library([build_block(d) for d in inp["blocks"]])
     f = None if inp.get("fmt") is None else dict(inp["fmt"])
-    fo = make_fmt(f)
+    fo = make_fmt(f, ucd)
     held = []
     tags = set()
     agg = {"fields": 0, "failed": 0, "writes": 0, "after_edit": 0}
@@ -697,7 +1032,7 @@ def run_session(inp):
         elif op == "fmt":
             if fo is not None:
                 old = f[st[1]]
-                set_fmt(fo, f, st[1], st[2])
+                set_fmt(fo, f, st[1], st[2], ucd)
                 tags.add("fmt_changed_between_writes" if agg["writes"] else "fmt_set")
                 if agg["writes"] and st[1] == "col" and old != st[2] and "auto" not in (old, st[2]):
                     tags.add("int_column_changed_between_writes")
@@ -705,7 +1040,7 @@ def run_session(inp):
         elif op == "fmt_new":
             f = dict(st[1])
             fo = None                          # drop the old object first: the new one may get its address
-            fo = make_fmt(f)
+            fo = make_fmt(f, ucd)
             tags.add("fmt_object_replaced")
             dirty = True
         elif op in ("write", "write_sub"):
@@ -715,6 +1050,8 @@ def run_session(inp):
                 target = Library([cur[i % len(cur)] for i in st[2]] if cur else [])
                 tags.add("second_library_sharing_blocks")
             blocks = list(target.blocks)
+            if ucd:
+                tags |= uc_tags(target, blocks, fo)
             before = fmt_state(fo)
             if st[1] == "write_string":
                 r = implutil.guarded(lambda: bibtexparser.write_string(target, unparse_stack=[], bibtex_format=fo))
@@ -789,25 +1126,35 @@ def impl(case):
         ok, detail, agg, tags, summary = run_session(inp)
         return {"sx_in": None, "sx_out": None, "oracle": {"ok": ok, "detail": detail},
                 "nontrivial": bool(agg["fields"] or agg["failed"]),
-                "key": json.dumps(["session", inp["blocks"], inp.get("fmt"), inp["steps"]], sort_keys=True),
-                "tags": ["session"] + sorted(tags), "summary": "%d writes; last: %s" % (agg["writes"], summary)}
+                "key": json.dumps(["session", inp["blocks"], inp.get("fmt"), inp["steps"]] + ([inp["uc"]] if inp.get("uc") else []),
+                                  sort_keys=True),
+                "tags": ["session"] + (["uc", "uc_session"] if inp.get("uc") else []) + sorted(tags), "summary": "%d writes; last: %s" % (agg["writes"], summary)}
 
     import bibtexparser
     from bibtexparser import writer
     from bibtexparser.library import Library
+    ucd = inp.get("uc")
+    lib_cls = ucx()[0].SubLibrary if (ucd and ucd.get("lib")) else Library
     if mode == "build":
-        lib = Library([build_block(d) for d in inp["blocks"]])
+        lib = lib_cls([build_block(d) for d in inp["blocks"]])
+        # user classes: the model is asked about the plain twin (same content in the library's own classes)
+        twin = Library([build_block(strip_u(d)) for d in inp["blocks"]]) if (ucd or any(has_u(d) for d in inp["blocks"])) else lib
     else:
-        lib = bibtexparser.parse_string(inp["text"], parse_stack=[])
+        lib = twin = bibtexparser.parse_string(inp["text"], parse_stack=[])
+        if ucd:
+            conv = ucd.get("conv") or [""]
+            lib = lib_cls([convert(b, conv[i % len(conv)]) for i, b in enumerate(twin.blocks)])
     f = inp.get("fmt")
-    fo = make_fmt(f)
+    fo = make_fmt(f, ucd)
     blocks = list(lib.blocks)
-    enc_blocks = [enc.enc_block(b) for b in blocks]
+    enc_blocks = [enc.enc_block(b) for b in twin.blocks]
+    if len(enc_blocks) != len(blocks):
+        enc_blocks = [[99]]                                  # no twin: oracle only
     if f is None:
         sx_in = [61, enc_blocks]
     else:
         sx_in = [60, [enc.enc_str(f["indent"]), [] if f["col"] == "auto" else [f["col"]], enc.enc_str(f["sep"]),
-                      int(f["trailing"]), enc.enc_str(fo.parsing_failed_comment)], enc_blocks]
+                      int(f["trailing"]), enc.enc_str(str(fo.parsing_failed_comment))], enc_blocks]
     before = fmt_state(fo)
     if inp.get("via") == "write_string":
         r = implutil.guarded(lambda: bibtexparser.write_string(lib, unparse_stack=[], bibtex_format=fo))
@@ -815,7 +1162,7 @@ def impl(case):
         r = implutil.guarded(lambda: writer.write(lib, fo))
     after = fmt_state(fo)
     ok, detail, kind, exp, notes = judge(r, blocks, f, before, after)
-    rec = {"sx_in": sx_in, "key": json.dumps([inp.get("blocks"), inp.get("text"), f], sort_keys=True)}
+    rec = {"sx_in": sx_in, "key": json.dumps([inp.get("blocks"), inp.get("text"), f] + ([ucd] if ucd else []), sort_keys=True)}
     if r[0] == "exc":
         rec["sx_out"] = implutil.r_exc(r[1])
         rec["summary"] = "raised " + r[2]
@@ -838,5 +1185,8 @@ def impl(case):
         tags.append("expects_" + exp)
     if not blocks:
         tags.append("empty_library")
+    if ucd:
+        ut = uc_tags(lib, blocks, fo)
+        tags += ["uc"] + sorted(ut) + (["uc_compared_with_model_on_plain_twin"] if rec["sx_in"] is not None else [])
     rec["tags"] = tags
     return rec
